@@ -6,7 +6,9 @@ with re.search -> converter correspondence (to_json_schema: nullable / readOnly)
 (strings matching the rewritten pattern must match the original and respect the bounds; failures are classified by
 the region predicates EVALUATED IN COQ) -> conversion pipeline of a parameter location (the schema handed to from_schema by the real
 get_parameters_strategy vs Model_C01.location_schema: WHERE the rewriter runs) -> parameter oracle (path / query / header / cookie values vs
-the DECLARED pattern with re.search; attribution to a rewriter finding needs declared bounds) -> end-to-end oracle (small OpenAPI documents -> as_strategy() positive draws
+the DECLARED pattern with re.search; attribution to a rewriter finding needs declared bounds) -> value chain of a location (scripted generated
+containers through the real map / filter chain of get_parameters_strategy vs Model_C01.run_vsteps) -> header / cookie length oracle (draws biased towards
+leading whitespace-class characters vs the DECLARED minLength / maxLength / pattern) -> end-to-end oracle (small OpenAPI documents -> as_strategy() positive draws
 validated with python-jsonschema against an independent conversion) -> replay of the listed findings.
 """
 from __future__ import annotations
@@ -2469,6 +2471,292 @@ def stage_parameter_patterns(chk, n_docs, draws=8, deadline=None, corpus=()):
 
 
 # ----------------------------------------------------------------------------------------
+# The VALUE side of get_parameters_strategy (Model_C01 section 11): map(serialize) / filter(is_valid_*) / map(quote_all) / map(jsonify)
+# ----------------------------------------------------------------------------------------
+WS_CLASS = ["\t", "\n", "\x0b", "\x0c", "\r", " ", "\x1c", "\x1d", "\x1e", "\x1f", "\x85", "\xa0"]
+WS_WIDE = [" ", " ", " ", " ", "　"]
+CHAIN_ODD = ["\x00", "\x01", "\x7f", "\x80", "\xff", "Ā", "中", "é", "\U0001f600", "\ud800", "\udfff", "/", "{", "}", ".", "%", "+", ":", ",", ";", "=", "&", "~", "_", "-", "\"", "Ā"]
+CHAIN_BODY = "abcXYZ019"
+VALUE_NAMES = {"path": ["id", "kind", "k3"], "query": ["q", "r", "é"], "header": ["X-A", "X-B", "X C"], "cookie": ["c", "d", "e-f"]}
+
+
+def gen_chain_string(rng) -> str:
+    k = rng.random()
+    if k < 0.06:
+        return rng.choice(["", ".", "..", "...", "/", " ", "\x0b", "%2E", "a+b", "a b"])
+    lead = "".join(rng.choice(WS_CLASS + (WS_WIDE if rng.random() < 0.2 else [])) for _ in range(rng.choice([0, 0, 1, 1, 1, 2])))
+    trail = "".join(rng.choice(WS_CLASS) for _ in range(rng.choice([0, 0, 0, 1, 2])))
+    body = "".join(rng.choice(CHAIN_BODY) if rng.random() < 0.8 else rng.choice(CHAIN_ODD + WS_CLASS) for _ in range(rng.choice([0, 1, 2, 3, 5, 7, 8, 12])))
+    return lead + body + trail
+
+
+def gen_chain_value(rng, declared_type):
+    k = rng.random()
+    if declared_type == "string" or k < 0.3:
+        return gen_chain_string(rng)
+    if k < 0.55:
+        return rng.choice([True, False])
+    if k < 0.65:
+        return None
+    return rng.choice([0, 1, -1, 7, -12, 10, 100, 255, 4096, -99999, 2**31, 2**64 + 1, -(2**40)])
+
+
+def c_gval(v) -> str:
+    if isinstance(v, bool):
+        return f"(GBool {cbool(v)})"
+    if v is None:
+        return "GNull"
+    if isinstance(v, int):
+        return f"(GInt {cZ(v)})"
+    return f"(GStr {cstr(v)})"
+
+
+def canon_gval(v):
+    """A model gval in the shape of the Python value it stands for."""
+    v = unsym(v)
+    if v == "GNull":
+        return None
+    if v[0] == "GStr":
+        return pstr(v[1])
+    if v[0] == "GBool":
+        return bool(v[1])
+    return int(v[1])
+
+
+def typed(v):
+    return [type(v).__name__, v]
+
+
+class ScriptedChain:
+    """The REAL chain of get_parameters_strategy(operation, factory, location, GenerationConfig()) behind a strategy_factory that
+    yields a chosen container: the factory first lets the real make_positive_strategy see the schema (it marks plain string
+    headers with the internal format, which decides _can_skip_header_filter), then returns the scripted strategy."""
+
+    def __init__(self, op, location):
+        import copy
+
+        from hypothesis import HealthCheck, Phase, given, settings
+        from hypothesis import strategies as st
+        from schemathesis.generation import GenerationConfig
+        from schemathesis.specs.openapi import _hypothesis as H
+
+        self.cell, self.out, self.skip = {}, [], None
+
+        def factory(schema, operation_name, loc, media_type, generation_config, *args, **kwargs):
+            H.make_positive_strategy(schema, operation_name, loc, media_type, generation_config, *args, **kwargs)
+            self.skip = H.is_header_location(loc) and all(sub.get("format") == "_header_value" for sub in schema.get("properties", {}).values())
+            return st.builds(lambda: copy.deepcopy(self.cell["value"]))
+
+        with warnings.catch_warnings():
+            warnings.simplefilter("ignore")
+            strategy = H.get_parameters_strategy(op, factory, location, GenerationConfig())
+
+        @settings(max_examples=1, database=None, derandomize=True, deadline=None, suppress_health_check=list(HealthCheck), phases=[Phase.generate])
+        @given(strategy)
+        def collect(v):
+            self.out.append(v)
+
+        self.collect = collect
+
+    def run(self, container):
+        """("passed", [(name, value)...]) | ("filtered",) | ("raises", type name)"""
+        from hypothesis.errors import Unsatisfiable
+
+        self.cell["value"] = container
+        self.out.clear()
+        try:
+            with warnings.catch_warnings():
+                warnings.simplefilter("ignore")
+                self.collect()
+        except Unsatisfiable:
+            return ("filtered",)
+        except Exception as exc:  # noqa: BLE001
+            return ("raises", type(exc).__name__)
+        if not self.out:
+            return ("filtered",)
+        return ("passed", [[k, typed(v)] for k, v in self.out[0].items()])
+
+
+def stage_value_chain(chk, n_groups, per_group=6):
+    """Correspondence for Model_C01 section 11: scripted generated containers (strings with leading / trailing whitespace-class
+    characters, control characters, non-latin-1, surrogates, reserved characters; integers, booleans, None) are fed through the
+    REAL map / filter chain of get_parameters_strategy for each location; what comes out (or that the draw is discarded) is
+    compared with Model_C01.run_vsteps (value_chain l skip)."""
+    import schemathesis
+
+    rng = chk.rng
+    stats = {"groups": 0, "containers": 0, "agree": 0, "passed": 0, "filtered": 0, "skip_filter_branch": 0, "leading_whitespace_values": 0, "by_location": {}}
+    runs = []
+    # the witness of C01_strip_before_filter_sentinel_refuted and its neighbours first, in both header locations
+    for location, name in (("header", "X-A"), ("cookie", "c")):
+        params = [{"name": name, "in": location, "required": True, "schema": {"type": "string", "minLength": 8}}]
+        raw, path = pipeline_document(params, "3.0")
+        chain = ScriptedChain(schemathesis.openapi.from_dict(raw)[path]["POST"], location)
+        for value in ("\x0babcdefg", " abcdefg", "abcdefg\t", "\xa0abcdefgh", "abcdefgh", "\x1fabcdefg", "\u2003abcdefg"):
+            runs.append((location, bool(chain.skip), raw, {name: value}, chain.run({name: value}), params))
+    for _ in range(n_groups):
+        location = rng.choice(list(PIPE_LOCATIONS))
+        dialect = rng.choice(["3.0", "3.0", "3.1", "2.0"])
+        if dialect == "2.0" and location == "cookie":
+            continue
+        names = rng.sample(VALUE_NAMES[location][:2], rng.choice([1, 1, 2])) + ([VALUE_NAMES[location][2]] if rng.random() < 0.15 and location != "path" else [])
+        params = []
+        plain = rng.random() < 0.25  # all plain {type: string}: the skip-filter branch of header locations
+        for name in names:
+            t = "string" if plain else rng.choice(["string", "string", "string", "integer", "boolean"])
+            sch = {"type": t}
+            if t == "string" and not plain:
+                sch.update(rng.choice([{"minLength": 8}, {"minLength": 2, "maxLength": 9}, {"pattern": "^.{4,6}$"}, {"maxLength": 5}, {"enum": [" a", "b"]}]))
+            params.append({"name": name, "in": location, "required": True if location == "path" else rng.random() < 0.7, "schema": sch})
+        raw, path = pipeline_document(params, dialect)
+        try:
+            op = schemathesis.openapi.from_dict(raw)[path]["POST"]
+            chain = ScriptedChain(op, location)
+        except Exception as exc:  # noqa: BLE001
+            chk.disagree("value chain of get_parameters_strategy could not be built", {"document": raw, "location": location}, f"raises {type(exc).__name__}: {exc}"[:300], "a strategy")
+            continue
+        stats["groups"] += 1
+        stats["skip_filter_branch"] += bool(chain.skip)
+        for _ in range(per_group):
+            present = [p for p in params if p["required"] or rng.random() < 0.6] or params[:1]
+            container = {p["name"]: gen_chain_value(rng, p["schema"]["type"]) for p in present}
+            real = chain.run(container)
+            runs.append((location, bool(chain.skip), raw, container, real, params))
+    exprs = [f"run_vsteps (value_chain {PIPE_LOCATIONS[loc]} {cbool(skip)}) {clist([ctuple(cstr(k), c_gval(v)) for k, v in cont.items()], '(str * gval)%type')}"
+             for loc, skip, _, cont, _, _ in runs]
+    model = core.coq_eval(IMPORTS, exprs) if exprs else []
+    for (loc, skip, raw, cont, real, params), mv in zip(runs, model):
+        m = popt(mv)
+        mod = ("filtered",) if m is None else ("passed", [[pstr(k), typed(canon_gval(g))] for k, g in m])
+        lead_ws = any(isinstance(v, str) and v[:1].isspace() for v in cont.values())
+        stats["containers"] += 1
+        stats["leading_whitespace_values"] += lead_ws
+        stats[real[0]] = stats.get(real[0], 0) + 1
+        stats["by_location"][loc] = stats["by_location"].get(loc, 0) + 1
+        chk.seen({"value_chain": [loc, skip, [[k, typed(v)] for k, v in cont.items()]]}, real[0] == "passed" or lead_ws)
+        chk.count(f"value_chain:{loc}:{real[0]}:{'leading-ws' if lead_ws else 'other'}")
+        if tuple(real) == tuple(mod):
+            stats["agree"] += 1
+            continue
+        what = "value chain of get_parameters_strategy (map serialize / filter / quote_all / jsonify) vs Model_C01.run_vsteps (value_chain)"
+        if real[0] == "passed" and mod[0] == "filtered":
+            what += " - a generated container the filter must DISCARD came out of the chain, changed (C01_value_chain_preserves: what leaves the chain is the generated value up to coercion)"
+        chk.disagree(what, {"location": loc, "skip_header_filter": skip, "document": raw, "generated": [[k, typed(v)] for k, v in cont.items()]}, list(real), list(mod))
+        # a concrete failing input on the implementation: the value that came out, read through the coercion of its location,
+        # against the declared string keywords of its parameter, when the generated value satisfied them
+        if real[0] == "passed":
+            declared = {p["name"]: p["schema"] for p in params}
+            for k, (_, out) in real[1]:
+                sch, gen = declared.get(k), cont.get(k)
+                if sch is None or not isinstance(gen, str) or not isinstance(out, str) or sch.get("type") != "string":
+                    continue
+                read = unquote_plus(out) if loc == "path" else out
+                keys = {kk: sch[kk] for kk in ("minLength", "maxLength", "pattern") if kk in sch}
+                bad = string_value_violations(keys, read)
+                if bad and not string_value_violations(keys, gen):
+                    chk.fail(f"{loc} parameter {k}: a value generated VALID for its declared schema leaves the chain of get_parameters_strategy as a different value that violates it: " + "; ".join(bad),
+                             {"document": raw, "in": loc, "declared": sch, "generated_value": gen, "value_in_case": out},
+                             "scripted strategy_factory; the chain after it is the real one")
+    return stats
+
+
+WS_FORMAT = "verif-c01-ws-led"
+
+
+def register_ws_format():
+    """A custom string format whose draws are biased towards a leading (and sometimes trailing) whitespace-class character."""
+    import schemathesis
+    from hypothesis import strategies as st
+
+    leads = WS_CLASS + ["", "", "", "", "a", "Q", "7", "-", "é", "x ", "_"]
+    schemathesis.openapi.format(
+        WS_FORMAT,
+        st.builds(lambda a, b, c: a + b + c, st.sampled_from(leads), st.text(alphabet="abcdefXYZ019-_ .", max_size=12), st.sampled_from(["", "", "", " ", "\t", "\xa0"])),
+    )
+
+
+def gen_length_schema(rng, biased):
+    k = rng.random()
+    if k < 0.4:
+        sch = {"type": "string", "minLength": rng.choice([1, 2, 3, 4, 6, 8])}
+    elif k < 0.7:
+        mn = rng.choice([1, 2, 4, 8])
+        sch = {"type": "string", "minLength": mn, "maxLength": mn + rng.choice([0, 1, 2, 6])}
+    elif k < 0.8:
+        sch = {"type": "string", "maxLength": rng.choice([1, 3, 8])}
+    else:
+        a = rng.choice([1, 2, 4, 5])
+        sch = {"type": "string", "pattern": rng.choice(["^.{%d,%d}$" % (a, a + 2), "^.{%d}$" % a, "^[^z]{%d,}$" % a, "^\\S.{%d}" % a])}
+    if biased:
+        sch["format"] = WS_FORMAT
+    return sch
+
+
+def stage_header_lengths(chk, n_docs, draws=10, deadline=None):
+    """Oracle: header / cookie parameters whose string schema depends on the LENGTH of the value (minLength, maxLength, patterns like
+    ^.{4,6}$), 3.0 / 3.1 / 2.0 documents, real as_strategy() positive draws; 75 % of the schemas draw their values through a custom
+    string format biased towards leading / trailing whitespace-class characters (the filter of the location discards those draws;
+    no link of the chain may repair them), the rest through the ordinary generator.  Every value is validated against the
+    DECLARED minLength / maxLength / pattern (re.search)."""
+    import schemathesis
+    from hypothesis.errors import Unsatisfiable
+
+    rng = chk.rng
+    register_ws_format()
+    stats = {"documents": 0, "draws": 0, "values_checked": 0, "failing_values": 0, "unsatisfiable": 0, "too_slow_skipped": 0}
+    for _ in range(n_docs):
+        if deadline is not None and time.time() > deadline:
+            stats["stopped_at_deadline"] = True
+            break
+        dialect = rng.choice(["3.0", "3.0", "3.1", "2.0"])
+        params = []
+        for location, name in (("header", "X-Api-Key"), ("header", "X-Tag"), ("cookie", "session")):
+            if (dialect == "2.0" and location == "cookie") or rng.random() < 0.4:
+                continue
+            params.append({"name": name, "in": location, "required": True, "schema": gen_length_schema(rng, rng.random() < 0.75)})
+        if not params:
+            continue
+        raw, path = pipeline_document(params, dialect)
+        try:
+            with warnings.catch_warnings():
+                warnings.simplefilter("ignore")
+                op = schemathesis.openapi.from_dict(raw)[path]["POST"]
+                cases = draw_cases_guarded(op, rng.getrandbits(32), draws, 2.0)
+            if cases is None:
+                stats["too_slow_skipped"] += 1
+                continue
+        except Unsatisfiable:
+            stats["unsatisfiable"] += 1
+            continue
+        except Exception as exc:  # noqa: BLE001
+            chk.count(f"header_lengths_error:{type(exc).__name__}")
+            continue
+        stats["documents"] += 1
+        reported = set()
+        for case in cases:
+            stats["draws"] += 1
+            containers = {"header": case.headers or {}, "cookie": case.cookies or {}}
+            for prm in params:
+                cont = containers[prm["in"]]
+                if prm["name"] not in cont:
+                    chk.fail("required parameter missing from a positive case", {"document": raw, "parameter": prm["name"]})
+                    continue
+                value = cont[prm["name"]]
+                sch = prm["schema"]
+                stats["values_checked"] += 1
+                chk.seen({"header_length_value": [prm["in"], sch, value]}, True)
+                chk.count(f"header_lengths:{prm['in']}:{'biased' if 'format' in sch else 'plain'}")
+                bad = [f"generated as {type(value).__name__}"] if not isinstance(value, str) else string_value_violations(sch, value)
+                if bad and (prm["name"], tuple(bad)) not in reported:
+                    reported.add((prm["name"], tuple(bad)))
+                    stats["failing_values"] += 1
+                    chk.fail(f"{prm['in']} parameter {prm['name']} of a positive case violates its DECLARED string keywords: " + "; ".join(bad),
+                             {"document": raw, "in": prm["in"], "declared": sch, "value": value},
+                             "no pattern / length merge is involved (the schema declares lengths only, or a pattern only): the value was changed after generation or generated wrongly")
+    return stats
+
+
+# ----------------------------------------------------------------------------------------
 # Generation settings: allow_x00 / codec
 # ----------------------------------------------------------------------------------------
 CONFIG_DOC = {
@@ -2646,6 +2934,9 @@ def run(chk: core.Check):
         "Model_C01 section 10: a parameter schema as the record of the keywords the pipeline looks at (type, nullable, pattern, minLength, maxLength, "
         "any-other-keyword flag); the harness records the schema object that reaches hypothesis_jsonschema.from_schema (a wrapper around the foreign "
         "function, installed only while get_parameters_strategy is called) and compares it property by property",
+        "Model_C01 section 11: a generated container as an ordered list of (name, string | bool | None | int); the harness calls the real "
+        "get_parameters_strategy with a strategy_factory that first runs the real make_positive_strategy on the schema (for the header-format marking) and then "
+        "yields the scripted container; one hypothesis draw per container (Unsatisfiable = the filter discarded it)",
         "correspondence harness harness/props/c01.py (encoders, Coq output parser, generators)",
     ]
     chk.assumptions = [
@@ -2666,7 +2957,12 @@ def run(chk: core.Check):
         "parameter pipeline: 1-3 parameters of one location (path / query / header / cookie; 3.0, 3.1, 2.0) whose patterns come from every class of the rewriter's case split "
         "(single class or literal anchored on both / one / no side, single repeat, multi-quantifier, left alone) or from the pattern generator, x no length keyword (45%) / minLength / maxLength / both "
         "(0 included) x nullable absent / true / false x type string / absent / integer x vendor keyword; parameter oracle: the same declared schemas (strings, 60% without length keywords, "
-        "declared lengths kept only when satisfiable) in all four locations of one operation, 8 positive draws each"
+        "declared lengths kept only when satisfiable) in all four locations of one operation, 8 positive draws each; "
+        "value chain: 1-3 parameters of one location (string with minLength / maxLength / ^.{4,6}$ / enum, integer, boolean, or all plain strings = skip-filter branch) x scripted containers "
+        "whose strings carry 0-2 leading and 0-2 trailing whitespace-class characters (\\t \\n \\x0b \\x0c \\r space \\x1c-\\x1f \\x85 \\xa0, wide Unicode spaces), control characters, "
+        "non-latin-1, astral, lone surrogates, reserved characters (/ { } . .. % + : , ; = &), empty; integers (negative, > 2**64), booleans, None; "
+        "header length oracle: header / cookie string schemas with minLength / maxLength / length-dependent patterns, 75% drawing through a custom string format "
+        "whose values start with a whitespace-class character in about half of the draws"
     )
     chk.proofs(["Common", "C01"])
     rng = chk.rng
@@ -2710,6 +3006,8 @@ def run(chk: core.Check):
     param_corpus = [c for c in corpus if c.get("kind") == "parameter"]
     chk.stages["correspondence_location_pipeline"] = stage_location_pipeline(chk, 250 if quick else 2500, corpus=param_corpus)
 
+    chk.stages["correspondence_value_chain"] = stage_value_chain(chk, 120 if quick else 1200)
+
     boost = 10 if chk.broken else 1
     cap = (225 if quick else 1500) if chk.broken else None
     t0 = chk.t0
@@ -2717,6 +3015,7 @@ def run(chk: core.Check):
     chk.stages["search_rewriter"] = stage_rewrite_search(chk, rewritten, (6 if quick else 12) * boost, deadline=cap and t0 + cap * 0.45)
     chk.stages["search_string_level"] = stage_string_level(chk, (400 if quick else 6000) * boost, deadline=cap and t0 + cap * 0.6)
     chk.stages["search_parameter_patterns"] = stage_parameter_patterns(chk, (45 if quick else 300) * (3 if chk.broken else 1), deadline=cap and t0 + cap * 0.8, corpus=param_corpus)
+    chk.stages["search_header_value_lengths"] = stage_header_lengths(chk, (30 if quick else 300) * (3 if chk.broken else 1), deadline=cap and t0 + cap * 0.9)
     chk.stages["search_generation_config"] = stage_generation_config(chk, 3 if quick else 25)
     chk.stages["search_end_to_end"] = stage_end_to_end(chk, (45 if quick else 700) * boost, deadline=cap and t0 + cap)
 
